@@ -27,7 +27,7 @@ CACHE_NAME = "simcache"
 RES_FAULTS = ("NOTFOUND", "ERR_BEFORE", "ERR_MID", "ERR_AFTER", "RET_FALSE_BEFORE", "RET_FALSE_MID", "INTERRUPT_MID",
               "ERR_STOPITER")
 NET_FAULTS = ("HTTP_404", "HTTP_5XX", "CONN_ERR", "TIMEOUT")
-FS_FAULTS = ("EIO", "ENOSPC", "SHORT_WRITE", "EMFILE", "SRC_MISSING", "RENAME_EIO")
+FS_FAULTS = ("EIO", "ENOSPC", "SHORT_WRITE", "EMFILE", "SRC_MISSING", "RENAME_EIO", "DISK_FULL")
 PP_FAULTS = ("PP_ERR_BEFORE", "PP_ERR_MID", "PP_ERR_AFTER", "PP_INTERRUPT_MID")
 VAL_FAULTS = ("VALIDATE_FALSE", "VALIDATE_IOERROR", "VALIDATE_RAISE")
 ALL_FAULTS = RES_FAULTS + NET_FAULTS + FS_FAULTS + PP_FAULTS + VAL_FAULTS
@@ -146,6 +146,15 @@ class RunDirector(Director):
                 self.crash_fired = {"op": self.op, "at": m, "kind": kind, "path": path, "actor": actor.name,
                                     "torn": torn, "n": n}
                 return ("crash", torn)
+        if self.faults and kind == "write" and n > 0 and path.startswith(w.cache_dir + "/"):
+            # DISK_FULL: the volume holding the cache directory is full for the whole operation - every write
+            # of data there fails (downloads, temporaries, the rewrite of the configuration file)
+            for f in self.faults:
+                if f["kind"] == "DISK_FULL" and f["op"] == self.op:
+                    if not f["_fired"]:
+                        f["_fired"] = True
+                        self.fired.append(dict(f, _key=None))
+                    return ("raise", OSError(errno.ENOSPC, "No space left on device (injected, disk full)", path))
         if self.faults and kind in ("write", "open", "unlink", "rename"):
             key = w.key_for_path(path)
             if key is None and w.current_kind == "GET" and path.startswith(w.cache_dir + "/") \
@@ -936,7 +945,10 @@ class World:
             if size is None:
                 size = k["max_bytes"]
             try:
-                self._open_cache(size, op.get("evict", False), k.get("parallel", False), k.get("allow_missing", True))
+                par = k.get("parallel", False)
+                if op.get("flip_parallel"):
+                    par = not par  # the caller reopens the directory asking for the other download mode
+                self._open_cache(size, op.get("evict", False), par, k.get("allow_missing", True))
             except BaseException:
                 self.cache = None
                 raise
